@@ -212,6 +212,11 @@ def order(ctx):
         for op in [o for o in atomic_ops(f) if atomic_field_of(f, o) == (CLS, "activated") and o["op"] in ("store", "rmw", "cas")]:
             pos = f.pos_of(op["st"])
             seen_set = op["name"] == "exchange" or (pos is not None and ("nn", "this.activated") in nn.before.get(tuple(pos), set()))
+            if not seen_set and pos is not None:
+                acc = common.accessors_of(fb, CLS, "activated")
+                seen_set = common.reached_only_when_true(
+                    f, pos, lambda c: c["k"] == "CXXMemberCallExpr" and (c.get("callee") or {}).get("name") in acc and
+                    path(f, f.s(c.get("obj"))) == "this")
             ctx.ob(rid, seen_set, f.loc(op["st"]), "reset() clears activated only where it has itself seen it set",
                    "" if seen_set else "activated is cleared without a test of it in reset(): an activate() that lands just before "
                    "is undone without its trigger ever firing, and its waiters stay blocked", fn=f.label, inst=f.qname)
